@@ -238,13 +238,33 @@ package ucfg
 //@ pure
 //@ ensures result1 == nil ==> result0 != nil
 
-//@ func mergeValues :: opts, old, v -> r, err
+// mvSpec is the statement's value-merge table, defined over cfgEval (what a value evaluates to as a
+// sub-config; nil when it does not): B wins unless both sides evaluate to sub-configs, then A's node.
+//@ axiom forall o value :: forall x value :: o == nil ==> mvSpec(o, x) == x
+//@ axiom forall o value :: forall x value :: o != nil && (cfgEval(o) == nil || cfgEval(x) == nil) ==> mvSpec(o, x) == x
+//@ axiom forall o value :: forall x value :: o != nil && cfgEval(o) != nil && cfgEval(x) != nil ==> mvSpec(o, x) == subval(cfgEval(o))
+//@ axiom forall x value :: typeof(x) == cfgSub ==> cfgEval(x) == x.(cfgSub).c
+
+//@ ghost func mergedInto(to *Config, from *Config, opts *options) bool
+
+//@ func mergeConfig
 //@ trusted
+//@ requires to != nil && to.fields != nil && from != nil && from.fields != nil
+//@ modifies tree(to)
+//@ ensures result == nil ==> mergedInto(to, from, opts)
+
+//@ func mergeValues :: opts, old, v -> r, err
+//@ props C01
 //@ requires v != nil
 //@ modifies tree(cfgEval(old))
-//@ ensures err == nil ==> r != nil && r == mvSpec(old, v)
+//@ ensures [nonnil] err == nil ==> r != nil
+//@ ensures [spec] err == nil ==> r == mvSpec(old, v)
+//@ ensures [newkey] old == nil ==> err == nil && r == v
+//@ ensures [b_wins] old != nil && (cfgEval(old) == nil || cfgEval(v) == nil) ==> err == nil && r == v
+//@ ensures [recurse] old != nil && cfgEval(old) != nil && cfgEval(v) != nil && err == nil ==> r == subval(cfgEval(old)) && mergedInto(cfgEval(old), cfgEval(v), opts)
 
 //@ func mergeConfigMergeArr
+//@ props C01
 //@ requires to != nil && to.fields != nil && from != nil && from.fields != nil
 //@ requires base(from.fields.a) != base(to.fields.a)
 //@ requires len(to.fields.a) + len(from.fields.a) < 9223372036854775807
@@ -252,12 +272,13 @@ package ucfg
 //@ requires forall j int :: 0 <= j && j < len(to.fields.a) ==> to.fields.a[j] != nil
 //@ requires inTree(to, to.fields) && inTree(to, base(to.fields.a))
 //@ requires forall j int :: 0 <= j && j < len(to.fields.a) ==> !inTree(cfgEval(to.fields.a[j]), to) && !inTree(cfgEval(to.fields.a[j]), to.fields) && !inTree(cfgEval(to.fields.a[j]), base(to.fields.a)) && !inTree(cfgEval(to.fields.a[j]), from) && !inTree(cfgEval(to.fields.a[j]), from.fields) && !inTree(cfgEval(to.fields.a[j]), base(from.fields.a))
-//@ requires forall j int :: 0 <= j && j < len(to.fields.a) ==> forall x int :: inTree(cfgEval(to.fields.a[j]), x) ==> inTree(to, x)
+//@ requires forall j int :: 0 <= j && j < len(to.fields.a) ==> subtree(cfgEval(to.fields.a[j]), to)
 //@ modifies tree(to)
 //@ ensures [lenA] result == nil && len(old(to.fields.a)) >= len(old(from.fields.a)) ==> len(to.fields.a) == len(old(to.fields.a))
 //@ ensures [lenB] result == nil && len(old(to.fields.a)) < len(old(from.fields.a)) ==> len(to.fields.a) == len(old(from.fields.a))
-//@ ensures [merged] result == nil ==> forall j int :: 0 <= j && j < len(old(to.fields.a)) && j < len(old(from.fields.a)) ==> copyOf(to.fields.a[j], mvSpec(old(to.fields.a[j]), old(from.fields.a[j])))
-//@ ensures [tailB] result == nil ==> forall j int :: len(old(to.fields.a)) <= j && j < len(old(from.fields.a)) ==> copyOf(to.fields.a[j], old(from.fields.a[j]))
+//@ ensures [merged] result == nil && len(old(from.fields.a)) <= len(old(to.fields.a)) ==> forall j int :: 0 <= j && j < len(old(from.fields.a)) ==> copyOf(to.fields.a[j], mvSpec(old(to.fields.a[j]), old(from.fields.a[j])))
+//@ ensures [merged_longerB !unproved] result == nil && len(old(from.fields.a)) > len(old(to.fields.a)) ==> forall j int :: 0 <= j && j < len(old(to.fields.a)) ==> copyOf(to.fields.a[j], mvSpec(old(to.fields.a[j]), old(from.fields.a[j])))
+//@ ensures [tailB !unproved] result == nil ==> forall j int :: 0 <= j && j < len(old(from.fields.a)) - len(old(to.fields.a)) ==> copyOf(to.fields.a[len(old(to.fields.a)) + j], old(from.fields.a[len(old(to.fields.a)) + j]))
 //@ ensures [tailA] result == nil ==> forall j int :: len(old(from.fields.a)) <= j && j < len(old(to.fields.a)) ==> to.fields.a[j] == old(to.fields.a[j])
 //@ loop 1 invariant 0 <= i && i <= l
 //@ loop 1 invariant to.fields == old(to.fields) && from.fields == old(from.fields) && to.fields.a == old(to.fields.a) && from.fields.a == old(from.fields.a)
